@@ -27,6 +27,58 @@ example : nib 1700000003000 15000 3600000 = some 1700002793000 := by decide
 example : nib (-7) 3 10 = some 8 := by decide          -- truncation: "next" boundary of −7 is 10
 example : nib 5 13 10 = some 5 := by decide            -- step > interval: stays at t
 
+/-! ### int64 -/
+
+/-- every value `nextIntervalBoundary` computes on the way (and the `end + step` of the loop) -/
+def nibIntermediates (t step iv : Int) : List Int :=
+  let q := t.tdiv iv
+  let sONI := (q + 1) * iv
+  let r := (sONI - t).tmod step
+  let target := sONI - r
+  [q, q + 1, sONI, sONI - t, r, target, target - step, target + step, target - step + step]
+
+/-- **no overflow**: for |t| < 2^61 and 0 < step, interval < 2^61 every intermediate value of
+    `nextIntervalBoundary` and of the loop increment fits an int64, so the `Int` model and the
+    `int64` code agree there. -/
+theorem C41_no_overflow (t step iv : Int) (ht : -(2 ^ 61) < t ∧ t < 2 ^ 61) (hs : 0 < step ∧ step < 2 ^ 61)
+    (hi : 0 < iv ∧ iv < 2 ^ 61) : ∀ x ∈ nibIntermediates t step iv, -(2 ^ 63) ≤ x ∧ x < 2 ^ 63 := by
+  have hq := Int.mul_tdiv_add_tmod t iv
+  have hr1 := Int.tmod_lt_of_pos t hi.1
+  have hr2 : -iv < t.tmod iv := by
+    rcases Int.lt_or_le t 0 with hneg | hpos
+    · have := Int.tmod_lt_of_pos (-t) hi.1
+      rw [Int.neg_tmod] at this; omega
+    · have := Int.tmod_nonneg iv hpos; omega
+  -- |q| ≤ |t|
+  have hq1 : t.tdiv iv ≤ 2 ^ 61 ∧ -(2 ^ 61) ≤ t.tdiv iv := by
+    constructor
+    · rcases Int.lt_or_le (2 ^ 61) (t.tdiv iv) with h | h
+      · have : iv * (2 ^ 61 + 1) ≤ iv * t.tdiv iv := Int.mul_le_mul_of_nonneg_left (by omega) (by omega)
+        have : (2:Int) ^ 61 + 1 ≤ iv * (2 ^ 61 + 1) := by
+          have := Int.mul_le_mul_of_nonneg_right (show (1:Int) ≤ iv by omega) (show (0:Int) ≤ 2 ^ 61 + 1 by omega)
+          omega
+        omega
+      · exact h
+    · rcases Int.lt_or_le (t.tdiv iv) (-(2 ^ 61)) with h | h
+      · have : iv * t.tdiv iv ≤ iv * (-(2 ^ 61) - 1) := Int.mul_le_mul_of_nonneg_left (by omega) (by omega)
+        have : iv * (-(2 ^ 61) - 1) ≤ -(2 ^ 61) - 1 := by
+          have := Int.mul_le_mul_of_nonneg_right (show (1:Int) ≤ iv by omega) (show (0:Int) ≤ 2 ^ 61 + 1 by omega)
+          have e : iv * (-(2 ^ 61) - 1) = -(iv * (2 ^ 61 + 1)) := by
+            rw [show (-(2:Int) ^ 61 - 1) = -(2 ^ 61 + 1) by omega, Int.mul_neg]
+          omega
+        omega
+      · exact h
+  have hsoni : (t.tdiv iv + 1) * iv = iv * t.tdiv iv + iv := by rw [Int.add_mul, Int.mul_comm]; simp
+  have hd0 : 0 < (t.tdiv iv + 1) * iv - t := by omega
+  have hd1 : (t.tdiv iv + 1) * iv - t < 2 * iv := by omega
+  have hm0 := Int.tmod_nonneg step (show 0 ≤ (t.tdiv iv + 1) * iv - t by omega)
+  have hm1 := Int.tmod_lt_of_pos ((t.tdiv iv + 1) * iv - t) hs.1
+  intro x hx
+  simp only [nibIntermediates, List.mem_cons, List.not_mem_nil, or_false] at hx
+  rcases hx with rfl | rfl | rfl | rfl | rfl | rfl | rfl | rfl | rfl <;> omega
+
+example : ∀ x ∈ nibIntermediates 1700000003000 15000 3600000, -(2 ^ 63) ≤ x ∧ x < 2 ^ 63 := by decide
+
 /-! ### range requests -/
 
 /-- **C41 (range queries).**  For every start, end, positive step and positive interval
